@@ -243,6 +243,8 @@ Proof. exact all_new_disjoint_l. Qed.
 Print Assumptions all_new_shares_nothing.
 
 (* ---- attribute guards ---- *)
+(* (definitional in the model: unfolds py_setattr, which mirrors the one-line guard of
+   _STIXBase.__setattr__; the content is property_names_refused below, over the GENERATED tables) *)
 Theorem setattr_refused : forall l name x h,
   setattr_allowed name = false -> py_setattr (VR l) name x h = (h, RExc "ImmutableError").
 Proof. exact Proofs.HeapStoreFacts.setattr_refused_l. Qed.
@@ -273,6 +275,7 @@ Theorem private_attrs_kept : forall vt W ops e h e' h',
 Proof. exact private_kept_l. Qed.
 Print Assumptions private_attrs_kept.
 
+(* (immediate from private_attrs; the content is private_attrs_kept above) *)
 Theorem delattr_public_refused : forall o name h,
   private_attrs h -> setattr_allowed name = false -> py_delattr o name h = (h, RExc "AttributeError").
 Proof. exact delattr_public_l. Qed.
@@ -321,10 +324,47 @@ Theorem frame_refuted_factory_shallow_copy :
 Proof. exact fac_shallow_refuted_l. Qed.
 Print Assumptions frame_refuted_factory_shallow_copy.
 
-(* ---- the hypotheses are satisfiable / the operations do something ---- *)
+(* ---- success paths (audit C13-14): the frame theorems above are SAFETY statements -- they also hold
+   when an operation returns RExc or RFuel.  On these concrete inputs the operations return a value,
+   under `as_written`, AND the caller's containers are node for node what they were.              *)
 Example deepcopy_runs :
   exists h' c, deepcopy 5 (VR 1) heap_ext = (h', RVal c) /\ c = VR 3.
-Proof. eexists; eexists; split; vm_compute; reflexivity. Qed.
+Proof. exact deepcopy_runs_l. Qed.
+
+Example extensions_clean_runs :
+  exists h' c, run as_written tiny_world (QClean (KExt true) (VR 1)) heap_ext = (h', RVal c) /\ length h' = 6 /\
+               get h' 0 = get heap_ext 0 /\ get h' 1 = get heap_ext 1.
+Proof. exact extensions_clean_runs_l. Qed.
+
+Example new_version_runs :
+  exists h' o, new_version as_written tiny_world (VR 0) [(u "name", VA (AStr (u "n")))] heap_nv = (h', RVal (VR o)) /\
+               get h' 0 = get heap_nv 0 /\ mapping_get h' (VR o) (u "name") = Some (VA (AStr (u "n"))) /\
+               mapping_get heap_nv (VR 0) (u "name") = None.
+Proof. exact new_version_runs_l. Qed.
+
+Example parse_observable_runs :
+  exists h' o, run as_written tiny_world (QParseObs (VR 0) (VA ANone) (Some true) true) heap_obs = (h', RVal (VR o)) /\
+               get h' 0 = get heap_obs 0 /\ class_of h' (VR o) = Some (u "v21.File").
+Proof. exact parse_observable_runs_l. Qed.
+
+Example factory_create_runs :
+  exists h' o, factory_create as_written tiny_world (VR 2) (u "v21.File") (VR 3) heap_fac = (h', RVal (VR o)) /\
+               get h' 0 = get heap_fac 0 /\ get h' 1 = get heap_fac 1 /\ get h' 2 = get heap_fac 2 /\ get h' 3 = get heap_fac 3.
+Proof. exact factory_create_runs_l. Qed.
+
+(* the store's table (location 1) now maps the id to the caller's dict; nothing else changed *)
+Example store_add_runs :
+  exists h', store_add as_written tiny_world FUEL 1 (VR 0) heap_store = (h', RVal (VA ANone)) /\
+             get h' 0 = get heap_store 0 /\ get h' 2 = get heap_store 2 /\
+             get h' 1 = Some (NStore [(u "x-thing--1", VR 0)]).
+Proof. exact store_add_runs_l. Qed.
+
+Example granular_add_markings_runs :
+  exists h' o, granular_add as_written tiny_world (VR 0) (VA (AStr (u "marking-definition--1"))) (VR 1) heap_mark = (h', RVal (VR o)) /\
+               get h' 0 = get heap_mark 0 /\ get h' 1 = get heap_mark 1 /\
+               mapping_get h' (VR o) (u "granular_markings") <> None /\
+               mapping_get heap_mark (VR 0) (u "granular_markings") = None.
+Proof. exact granular_add_runs_l. Qed.
 
 (* as written: the custom type's constructor puts its extension into the copied dict (location 3
    here), the caller's `extensions` dict (location 0) stays empty *)
@@ -333,6 +373,10 @@ Example custom_type_constructor_runs :
                get h' 0 = Some (NDict []) /\ mapping_get h' (VR 3) (u "extension-definition--1") <> None.
 Proof. exact custom_runs_l. Qed.
 
-Example extensions_clean_runs :
-  exists h' c, run as_written tiny_world (QClean (KExt true) (VR 1)) heap_ext = (h', RVal c) /\ length h' = 6.
-Proof. eexists; eexists; split; vm_compute; reflexivity. Qed.
+(* a history from the empty heap (build a dict, new_version, deepcopy, copy.copy, get_markings):
+   every step returns a container, every operation is public *)
+Example history_runs :
+  exists e' h', run_state as_written tiny_world demo_ops [] [] = (e', h') /\ length e' = 5 /\
+                forallb (fun v => match v with VR _ => true | VA _ => false end) e' = true /\
+                forallb public_op_d demo_ops = true.
+Proof. exact history_runs_l. Qed.
